@@ -27,6 +27,20 @@ class OutlineBase(plumpy.WorkChain):
         spec.outputs.dynamic = True
         spec.outline(*to_outline(cls, cls.AST))
 
+    trace = ()
+
+    def __init__(self, *args, **kwargs):
+        super().__init__(*args, **kwargs)
+        self._attach()
+
+    def load_instance_state(self, saved_state, load_context):
+        super().load_instance_state(saved_state, load_context)
+        self._attach()
+
+    def _attach(self):
+        from . import programs
+        programs.ProgBase._attach(self)
+
     def _call(self, kind, name):
         tr = self.ctx.setdefault('tr', [])
         if kind == 'p':
